@@ -160,12 +160,13 @@ DiscCheck(e) ==
       ELSE IF e.frame # TdiscardedFrame(ftag, e.which, e.why) THEN "C13.bytes"
       ELSE "ok"
 
-\* Tping: e = [tag, frame, raised]
+\* Tping: e = [tag (-1 = chosen by the transport, not an input), frame, raised]
 PingCheck(e) ==
-  IF ~(IsBytes(e.frame) /\ e.tag \in 0..MaxTag) THEN "harness.input"
+  IF ~(IsBytes(e.frame) /\ e.tag \in -1..MaxTag) THEN "harness.input"
   ELSE IF e.raised # "none" THEN "C13.raised"
-  ELSE IF FrameCheck(e.frame, TpingT, e.tag) # "ok" THEN FrameCheck(e.frame, TpingT, e.tag)
-  ELSE IF e.frame # TpingFrame(e.tag) THEN "C13.bytes"
+  ELSE LET ftag == IF e.tag = -1 THEN DecFrame(e.frame).tag ELSE e.tag IN
+  IF FrameCheck(e.frame, TpingT, ftag) # "ok" THEN FrameCheck(e.frame, TpingT, ftag)
+  ELSE IF e.frame # TpingFrame(ftag) THEN "C13.bytes"
   ELSE "ok"
 
 \* Header writer / reply-header reader:
@@ -206,6 +207,11 @@ ImplDispatchFrame(tag, ctx, payload, variant) ==
   LET body == U16(Len(ctx)) \o Concat([i \in DOMAIN ctx |-> ImplCtxEntry(ctx[i], variant)])
               \o U16(0) \o U16(0) \o payload
   IN I32(1 + 3 + Len(body)) \o I8(TdispatchT) \o U24(tag) \o body
+\* SocketTransportSink._BuildHeader / _EncodeTag, MessageSerializer._Marshal_Tdiscarded + Tag.Encode
+ImplEncodeTag(tag)  == <<(tag \div 65536) % 256, (tag \div 256) % 256, tag % 256>>     \* tag >> 16 & 0xff, ...
+ImplBuildHeader(tag, type, datalen) == I32(1 + 3 + datalen) \o I8(type) \o ImplEncodeTag(tag)   \* pack('!ibBBB')
+ImplDiscardFrame(tag, which, why) ==
+  LET body == ImplEncodeTag(which) \o Utf8(why) IN ImplBuildHeader(tag, TdiscardedT, Len(body)) \o body
 ImplReadHeader(b, variant) ==
   IF variant = "asis" THEN <<(256 - b[1]) * (-1), RdU24(b, 2)>>
   ELSE <<RdI8(b, 1), RdU24(b, 2)>>
